@@ -3,6 +3,7 @@ import PprofVerif.Lemmas.StacksValid
 import PprofVerif.Lemmas.StacksExample
 import PprofVerif.Lemmas.StacksAggregate
 import PprofVerif.Lemmas.StacksSelect
+import PprofVerif.Lemmas.StacksTrim
 /-!
 # C17 — flame-graph stack data is a faithful, self-consistent index of samples
 
@@ -20,17 +21,17 @@ open PV PV.Stacks
 
 /-- On a valid profile (CheckValid + references inside the tables) and a sample index inside the
 sample types, no index expression of `Stacks()` is out of range and no pointer is nil. -/
-theorem stacks_never_panic (p : Profile) (idx : Nat) (hv : p.Valid) (hi : idx < p.sampleType.length) :
-    ∃ ss, stacks p idx = .ok ss := by
+theorem stacks_never_panic (o : Opts) (p : Profile) (idx : Nat) (hv : p.Valid) (hi : idx < p.sampleType.length) :
+    ∃ ss, stacks o p idx = .ok ss := by
   obtain ⟨rs, hr⟩ := valid_resolve p idx hv hi
-  obtain ⟨st, _, hb⟩ := build_spec (computeTotal ((rs.zip p.samples).map fun x => (x.1.1, diffBase x.2))) rs
+  obtain ⟨st, _, hb⟩ := build_spec o (computeTotal ((rs.zip p.samples).map fun x => (x.1.1, diffBase x.2))) rs
   exact ⟨_, by simp only [stacks, hr, bind, Outcome.bind]; exact hb⟩
 
 -- non-vacuity: `exProfile` (main → [f ⊃ inlined g] → [f ⊃ inlined g], a location without lines, an
 -- empty stack) is valid, so every theorem below applies to it with `idx = 0`; its first stack is
 -- recursive and the place lists show the outermost occurrence only.
 example : exProfile.Valid ∧ 0 < exProfile.sampleType.length := by decide
-example : (match stacks exProfile 0 with
+example : (match stacks Opts.default exProfile 0 with
     | .ok ss => (ss.stacks.elems.map (·.sources.elems), ss.sources.elems.map (·.places.elems),
                  ss.sources.elems.map (·.self), ss.sources.elems.map (·.inlined))
     | _ => ([], [], [], [])) =
@@ -39,7 +40,7 @@ example : (match stacks exProfile 0 with
      [-2, 7, 0, 5], [false, false, false, true]) := by decide
 
 /-- One stack per sample, in sample order, carrying that sample's selected value. -/
-theorem stacks_one_per_sample (p : Profile) (idx : Nat) (ss : StackSet) (h : stacks p idx = .ok ss) :
+theorem stacks_one_per_sample (o : Opts) (p : Profile) (idx : Nat) (ss : StackSet) (h : stacks o p idx = .ok ss) :
     ss.stacks.elems.length = p.samples.length ∧
     ∀ i (hi : i < p.samples.length), ∃ st, ss.stacks.elems[i]? = some st ∧
       p.samples[i].values[idx]? = some st.value := by
@@ -54,14 +55,14 @@ theorem stacks_one_per_sample (p : Profile) (idx : Nat) (ss : StackSet) (h : sta
 caller to callee, for ONE map `src` from frame identities (function name, file name, line, column,
 inlined) to source indices; `src` never yields the root, the source it yields shows the frame's
 full name, trimmed file name and inlined flag, and two different identities never share a source. -/
-theorem stack_sources_eq_frames (p : Profile) (idx : Nat) (ss : StackSet) (h : stacks p idx = .ok ss) :
+theorem stack_sources_eq_frames (o : Opts) (p : Profile) (idx : Nat) (ss : StackSet) (h : stacks o p idx = .ok ss) :
     ∃ src : Key → Nat,
       (∀ i (hi : i < p.samples.length), ∃ st fs, ss.stacks.elems[i]? = some st ∧
           Spec.sampleFrames p p.samples[i] = some fs ∧
           st.sources.elems = 0 :: fs.map (fun f => src f.key)) ∧
       (∀ s ∈ p.samples, ∀ fs, Spec.sampleFrames p s = some fs → ∀ f ∈ fs,
           1 ≤ src f.key ∧ ∃ so, ss.sources.elems[src f.key]? = some so ∧
-            so.fullName = f.key.fullName ∧ so.fileName = f.key.fileName ∧ so.inlined = f.inlined) ∧
+            so.fullName = f.key.fullName o ∧ so.fileName = f.key.fileName o ∧ so.inlined = f.inlined) ∧
       (∀ s ∈ p.samples, ∀ s' ∈ p.samples, ∀ fs gs, Spec.sampleFrames p s = some fs →
           Spec.sampleFrames p s' = some gs → ∀ f ∈ fs, ∀ g ∈ gs, src f.key = src g.key → f.key = g.key) ∧
       (∃ so, ss.sources.elems[0]? = some so ∧ so.fullName = Str.ofString "root" ∧ so.inlined = false) := by
@@ -97,7 +98,7 @@ theorem stack_sources_eq_frames (p : Profile) (idx : Nat) (ss : StackSet) (h : s
     exact ⟨_, result_source_of hs0, hn.1, hn.2⟩
 
 /-- Stack values sum to the signed total of the selected sample value. -/
-theorem values_sum (p : Profile) (idx : Nat) (ss : StackSet) (h : stacks p idx = .ok ss) :
+theorem values_sum (o : Opts) (p : Profile) (idx : Nat) (ss : StackSet) (h : stacks o p idx = .ok ss) :
     (ss.stacks.elems.map (·.value)).sum = (p.samples.filterMap (fun s => s.values[idx]?)).sum := by
   obtain ⟨rs, st, total, hres, _, rfl⟩ := stacks_ok h
   rw [Spec.resolve, optMap_eq_some_iff] at hres
@@ -105,7 +106,7 @@ theorem values_sum (p : Profile) (idx : Nat) (ss : StackSet) (h : stacks p idx =
   simp [result, Slice.lit, List.map_map, Function.comp_def, mkStack]
 
 /-- Each source's self value is the sum of the values of the stacks it terminates. -/
-theorem self_spec (p : Profile) (idx : Nat) (ss : StackSet) (h : stacks p idx = .ok ss) :
+theorem self_spec (o : Opts) (p : Profile) (idx : Nat) (ss : StackSet) (h : stacks o p idx = .ok ss) :
     ∀ (i : Nat) (s : Source), ss.sources.elems[i]? = some s →
       s.self = ((ss.stacks.elems.filter (fun st => st.sources.elems.getLast? == some i)).map (·.value)).sum := by
   obtain ⟨rs, st, total, _, inv, rfl⟩ := stacks_ok h
@@ -116,7 +117,7 @@ theorem self_spec (p : Profile) (idx : Nat) (ss : StackSet) (h : stacks p idx = 
 /-- Each source's place index lists every stack containing it exactly once, at its outermost
 occurrence: `(a, b)` is listed iff stack `a` has the source at position `b` and at no earlier
 position; and the list is strictly increasing in the stack number (so no stack is listed twice). -/
-theorem places_complete_unique_first (p : Profile) (idx : Nat) (ss : StackSet) (h : stacks p idx = .ok ss) :
+theorem places_complete_unique_first (o : Opts) (p : Profile) (idx : Nat) (ss : StackSet) (h : stacks o p idx = .ok ss) :
     ∀ (i : Nat) (s : Source), ss.sources.elems[i]? = some s →
       (∀ a b, (a, b) ∈ s.places.elems ↔
         ∃ st, ss.stacks.elems[a]? = some st ∧ st.sources.elems[b]? = some i ∧
@@ -142,7 +143,7 @@ theorem places_complete_unique_first (p : Profile) (idx : Nat) (ss : StackSet) (
 /-- Every index the client dereferences is in range: a stack is never empty and starts at the
 root, its entries index `Sources`; a place `(a, b)` of source `i` indexes `Stacks` and that stack's
 `Sources`, and the slot it names holds `i`. -/
-theorem indices_in_range (p : Profile) (idx : Nat) (ss : StackSet) (h : stacks p idx = .ok ss) :
+theorem indices_in_range (o : Opts) (p : Profile) (idx : Nat) (ss : StackSet) (h : stacks o p idx = .ok ss) :
     (∀ st ∈ ss.stacks.elems, st.sources.elems.head? = some 0 ∧
         ∀ j ∈ st.sources.elems, j < ss.sources.elems.length) ∧
     (∀ (i : Nat) (s : Source), ss.sources.elems[i]? = some s → ∀ pl ∈ s.places.elems,
@@ -155,13 +156,13 @@ theorem indices_in_range (p : Profile) (idx : Nat) (ss : StackSet) (h : stacks p
     obtain ⟨x, _, rfl⟩ := hsk
     exact ⟨rfl, by simpa [result, Slice.lit, List.length_mapIdx] using hr⟩
   · intro i s hs pl hpl
-    obtain ⟨sk, h1, h2, _⟩ := ((places_complete_unique_first p idx ss h i s hs).1 pl.1 pl.2).1 hpl
+    obtain ⟨sk, h1, h2, _⟩ := ((places_complete_unique_first o p idx ss h i s hs).1 pl.1 pl.2).1 hpl
     exact ⟨sk, h1, h2⟩
 
 /-- No array of the stack set is nil (JSON `null`): `Stacks`, `Sources`, every `Stack.Sources`,
 every `StackSource.Places` — also for a profile without samples and for sources/stacks that
 stay empty. -/
-theorem arrays_nonnil (p : Profile) (idx : Nat) (ss : StackSet) (h : stacks p idx = .ok ss) :
+theorem arrays_nonnil (o : Opts) (p : Profile) (idx : Nat) (ss : StackSet) (h : stacks o p idx = .ok ss) :
     ss.stacks.nonnil = true ∧ ss.sources.nonnil = true ∧
     (∀ st ∈ ss.stacks.elems, st.sources.nonnil = true) ∧
     (∀ s ∈ ss.sources.elems, s.places.nonnil = true) := by
@@ -246,5 +247,64 @@ example :
     selectIndex p ev = .ok 1 ∧ selectIndex p [69, 118, 101, 110, 116, 115] = .ok 0 ∧
     (selectIndex p [69, 86, 69, 78, 84, 83]).isOk = false ∧ selectIndex p [49] = .ok 1 ∧
     selectIndex p [] = .ok 1 ∧ selectIndex p (inusePrefix ++ ev) = .ok 1 ∧ atoi ev = none := by decide
+
+/-
+Unique names.  Full statement (what `UniqueName` is documented for — "disambiguates functions with
+same names"):
+  theorem unique_names_injective : ∀ i j s t, 1 ≤ i → i < j → sources[i]? = some s →
+      sources[j]? = some t → s.uniqueName ≠ t.uniqueName
+It is FALSE of the code as it is (known finding C17/unique/collision/inlined-and-plain-copy-of-a-homonym):
+`unique_names_injective_fails_witness` below.  Proved: the part of it the naming scheme does deliver.
+-/
+
+/-- Among the sources that share a full name exactly the first one (lowest index) keeps it as its
+unique name; every other one gets `FullName#<a function id>`, which differs from the full name. So
+two sources with the same full name never both answer to that name. -/
+theorem unique_names_injective_partial (o : Opts) (p : Profile) (idx : Nat) (ss : StackSet)
+    (h : stacks o p idx = .ok ss) :
+    ∀ (j : Nat) (t : Source), 1 ≤ j → ss.sources.elems[j]? = some t →
+      (t.uniqueName = t.fullName ∨ ∃ id, t.uniqueName = t.fullName ++ hash ++ decNat id) ∧
+      (t.uniqueName = t.fullName ↔
+        ∀ (i : Nat) (s : Source), 1 ≤ i → i < j → ss.sources.elems[i]? = some s → s.fullName ≠ t.fullName) := by
+  have uq := stacks_uq h
+  intro j t hj ht
+  have hne : ∀ id, t.fullName ++ hash ++ decNat id ≠ t.fullName := by
+    intro id he
+    rw [List.append_assoc, List.append_right_eq_self] at he
+    exact absurd (congrArg List.length he) (by simp [Stacks.hash])
+  have hq : (ss.sources.elems.map nm)[j]? = some (nm t) := by simp [ht]
+  rcases uq j (nm t) hj hq with ⟨h1, h2⟩ | ⟨⟨id, h1⟩, i, r, hi, hij, hr, hre⟩
+  · refine ⟨Or.inl h1, fun _ => ?_, fun _ => h1⟩
+    intro i s hi hij hs
+    exact h2 i (nm s) hi hij (by simp [hs])
+  · refine ⟨Or.inr ⟨id, h1⟩, fun hp => ?_, fun hall => ?_⟩
+    · exact absurd (h1.symm.trans hp) (hne id)
+    · simp only [List.getElem?_map, Option.map_eq_some_iff] at hr
+      obtain ⟨s, hs, rfl⟩ := hr
+      exact absurd hre (hall i s hi hij hs)
+
+/-- Witness that full injectivity fails on the model of the code as it is: `f` of file a, then a
+location where `f` of file b is inlined into itself — the plain and the inlined copy of the second
+`f` both get the unique name `f#2`. -/
+theorem unique_names_injective_fails_witness :
+    (match stacks Opts.default uqProfile 0 with
+      | .ok ss => ss.sources.elems.map (fun s => (s.uniqueName, s.inlined))
+      | _ => []) =
+    [([], false), ([102], false), ([102, 35, 50], false), ([102, 35, 50], true)] := by decide
+
+/-- `FileName` is the function's file name with a prefix removed — whatever `-trim_path` and
+`-source_path` are, it names a tail of a path of the profile (never text from the options or the
+environment). -/
+theorem file_name_is_suffix (o : Opts) (k : Key) : ∃ n, k.fileName o = k.file.drop n :=
+  trimPath_drop o k.file
+
+-- non-vacuity: trim_path "/r/p" removes that prefix ("/r/p/u/x.go" ↦ "u/x.go") and only as a prefix
+-- ("/o/p/u/x.go" stays); source_path "/r/p" alone cuts after the component "/p/" anywhere
+example :
+    trimPath ⟨[47, 114, 47, 112], []⟩ [47, 114, 47, 112, 47, 117, 47, 120, 46, 103, 111] = [117, 47, 120, 46, 103, 111] ∧
+    trimPath ⟨[47, 114, 47, 112], []⟩ [47, 111, 47, 112, 47, 117, 47, 120, 46, 103, 111] =
+      [47, 111, 47, 112, 47, 117, 47, 120, 46, 103, 111] ∧
+    trimPath ⟨[], [47, 114, 47, 112]⟩ [47, 111, 47, 112, 47, 117, 47, 120, 46, 103, 111] = [117, 47, 120, 46, 103, 111] := by
+  decide
 
 end PV.Props.C17
